@@ -76,6 +76,12 @@ def run(ctx):
         tok, key, valn = node.kids[0], node.kids[1], node.kids[2]
         chk(ctx, "C02.R2", fn, line, "token", must(tok, lambda x: is_field(x, "unverified_sd_jwt")),
             "decode's token must-derives from the presented unverified_sd_jwt", "decode's token does not come (on every path) from the presented issuer-signed JWT: %s" % vstr(tok, 4))
+        # .. and is that string as it is: what is verified is what was presented, byte for byte (a trim / padding strip at the call site
+        # accepts tampered tokens the same way a normalising parser does, R6)
+        nv_ = common.not_verbatim(tok, lambda x: is_field(x, "unverified_sd_jwt"), extra=("ok_or", "ok_or_else", "branch"))
+        chk(ctx, "C02.R2", fn, line, "token-verbatim", nv_ is None,
+            "decode's token is the presented issuer-signed JWT unchanged", "the token handed to decode is a transformed copy of the presented issuer-signed JWT (%s): inserted characters that the "
+            "transformation removes are accepted" % (nv_.d["term"].get("name") if nv_ is not None else ""))
         chk(ctx, "C02.R2", fn, line, "key", must(key, is_resolver_call),
             "decode's key must-derives from the caller's resolver", "decode's key is not (on every path) the resolver's result: %s" % vstr(key, 4))
         for rc in [x for x in walk(key) if is_resolver_call(x)]:
